@@ -261,7 +261,7 @@ fn obtain_lazy(src: &Arc<Source>, j: &J, span: &Span, path: &[Step]) -> Result<H
     let target_sp = gen::span_at(span, j, path).unwrap();
     let m = LM { text: src.text[target_sp.start..target_sp.end].to_string(), j: target_j, span: target_sp.rebased() };
     let ptr = gen::to_pointer(path);
-    let route = draw(11);
+    let route = draw(14);
     trace::bump(C::lazy_handles);
     let text = src.text.as_str();
     let lv: LazyValue<'static> = unsafe {
@@ -290,7 +290,15 @@ fn obtain_lazy(src: &Arc<Source>, j: &J, span: &Span, path: &[Step]) -> Result<H
                 trace::bump(C::lazy_route_get);
                 stat(libcall("get_unchecked", || sonic_rs::get_unchecked(text, &ptr))?.map_err(|e| perr("get_unchecked", text, e))?)
             }
-            6 => {
+            11 => {
+                trace::bump(C::lazy_route_get);
+                stat(libcall("get_from_bytes_unchecked", || sonic_rs::get_from_bytes_unchecked(&src.bytes, &ptr))?.map_err(|e| perr("get_from_bytes_unchecked", text, e))?)
+            }
+            12 => {
+                trace::bump(C::lazy_route_get);
+                stat(libcall("get_from_faststr_unchecked", || sonic_rs::get_from_faststr_unchecked(&src.fs, &ptr))?.map_err(|e| perr("get_from_faststr_unchecked", text, e))?)
+            }
+            6 | 13 => {
                 trace::bump(C::lazy_route_get_many);
                 let mut tree = PointerTree::new();
                 tree.add_path(&[] as &[usize]);
@@ -301,7 +309,7 @@ fn obtain_lazy(src: &Arc<Source>, j: &J, span: &Span, path: &[Step]) -> Result<H
                 if probe {
                     tree.add_path(&["no such key"]);
                 }
-                let mut got = libcall("get_many", || sonic_rs::get_many(text, &tree))?.map_err(|e| perr("get_many", text, e))?;
+                let mut got = libcall("get_many", || if route == 13 { sonic_rs::get_many_unchecked(&src.fs, &tree) } else { sonic_rs::get_many(text, &tree) })?.map_err(|e| perr("get_many", text, e))?;
                 if got.len() != if probe { 3 } else { 2 } {
                     return Err(Violation::new("mismatch/get_many", format!("get_many returned {} slots", got.len())));
                 }
@@ -391,9 +399,45 @@ fn ints_only(j: &J) -> bool {
 
 /// a fresh owned lazy value (with its model) by a drawn route
 fn new_owned(cfg: &GenCfg) -> Result<(OwnedLazyValue, OM), Violation> {
+    new_owned_depth(cfg, 0)
+}
+
+fn new_owned_depth(cfg: &GenCfg, depth: u32) -> Result<(OwnedLazyValue, OM), Violation> {
     trace::bump(C::lazy_handles);
-    let route = draw(8);
+    let route = draw(if depth < 2 { 11 } else { 8 });
     match route {
+        8 => {
+            // an array built from parts
+            let mut vs = Vec::new();
+            let mut ms = Vec::new();
+            for _ in 0..draw(3) {
+                let (v, m) = new_owned_depth(cfg, depth + 1)?;
+                vs.push(v);
+                ms.push(m);
+            }
+            Ok((libcall("From<Vec<OwnedLazyValue>>", || OwnedLazyValue::from(vs))?, OM::Arr(ms)))
+        }
+        9 => {
+            // an object built from parts (unique keys)
+            let mut vs: Vec<(FastStr, OwnedLazyValue)> = Vec::new();
+            let mut ms: Vec<(String, OM)> = Vec::new();
+            for k in 0..draw(3) {
+                let (v, m) = new_owned_depth(cfg, depth + 1)?;
+                let key = format!("{}{}", pick(&["p", "q\"", "é", ""]), k);
+                vs.push((FastStr::new(&key), v));
+                ms.push((key, m));
+            }
+            Ok((libcall("From<Vec<(FastStr, OwnedLazyValue)>>", || OwnedLazyValue::from(vs))?, OM::Obj(ms)))
+        }
+        10 => {
+            // to_lazyvalue of an owned lazy value: a new raw value holding the serialization of the first
+            let (v, m) = new_owned_depth(cfg, depth + 1)?;
+            let text = m.exact_text();
+            let j = m.to_j();
+            let nv = libcall("to_lazyvalue(&owned)", || sonic_rs::to_lazyvalue(&v))?.map_err(|e| perr("to_lazyvalue(&owned)", &text, e))?;
+            libcall("drop", move || drop(v))?;
+            Ok((nv, OM::from_text(&text, j)))
+        }
         0 => {
             let b = draw(2) == 1;
             Ok((OwnedLazyValue::from(b), OM::scalar(if b { "true" } else { "false" }, J::Bool(b))))
@@ -403,7 +447,10 @@ fn new_owned(cfg: &GenCfg) -> Result<(OwnedLazyValue, OM), Violation> {
         _ => {
             let j = if chance(1, 3) { gen::gen_scalar(cfg) } else { gen::gen_j(cfg) };
             let text = gen::render(&j, &Style { ws: draw(3), esc: draw(3) });
-            owned_from_text(&text, &j, route)
+            let r = owned_from_text(&text, &j, route);
+            // an owned lazy value must not depend on the text it was made from
+            gen::scrub(text);
+            r
         }
     }
 }
@@ -723,6 +770,7 @@ pub fn run() -> SimResult {
                 let tt = if p.is_empty() { src.text.clone() } else { t };
                 let (v, m) = owned_from_text(&tt, &tj, draw(4))?;
                 tr!("  owned handle path={} raw={}", gen::path_str(&p), oracle::truncate(&tt));
+                gen::scrub(tt);
                 pool.push(H::Owned { v, m });
             }
         }
